@@ -1,4 +1,8 @@
 # sourced by every entry script
-export GOFLAGS=-mod=mod GOPROXY=off GOSUMDB=off GOTOOLCHAIN=local GONOSUMDB=* GONOSUMCHECK=1 GOFLAGS=-mod=mod
-export VERIF_DIR="${VERIF_DIR:-/verif}"
+export GOFLAGS=-mod=mod GOPROXY=off GOSUMDB=off GOTOOLCHAIN=local
+# the tree the script lives in (so that a snapshot of /verif runs its own code)
+if [ -z "$VERIF_DIR" ]; then
+  VERIF_DIR="$(cd "$(dirname "$0")/.." && pwd)"
+fi
+export VERIF_DIR
 export VERIF_BUILD_DIR="${VERIF_BUILD_DIR:-$VERIF_DIR/.build}"
